@@ -273,6 +273,10 @@ type repoManager struct {
 	// Mutex for concurrent use of all maps and ids below.
 	idMutex sync.RWMutex
 
+	// Serializes reading the id counters and writing their record, so that records reach the store
+	// in the order in which they were read.
+	putIDsMutex sync.Mutex
+
 	// Map local RepoID to root UUID
 	repoToUUID map[dvid.RepoID]dvid.UUID
 
@@ -458,6 +462,12 @@ func (m *repoManager) putNewIDs() error {
 		dvid.Infof("Server in read-only mode: will not write metadata new version and instance IDs.\n")
 		return nil
 	}
+	// The counters are read and their record is written in one critical section: a record assembled
+	// before a concurrent allocation can then not reach the store after that allocation's own record
+	// and set the persisted counters back.
+	m.putIDsMutex.Lock()
+	defer m.putIDsMutex.Unlock()
+
 	var ctx storage.MetadataContext
 	value := append(m.repoID.Bytes(), m.versionID.Bytes()...)
 	value = append(value, m.instanceID.Bytes()...)
